@@ -76,3 +76,21 @@ Theorem c19_rbmutex_example :
   reading (tpc r6 3) = true /\ rb_bias r6 = true.
 Proof. exact example_run. Qed.
 Print Assumptions c19_rbmutex_example.
+
+(* what the exclusion buys for the data the lock guards (the shape of every shard-map access): after any schedule
+   from the initial state, a thread that holds the lock for reading and keeps it sees the guarded cell unchanged
+   however the other threads are scheduled, ... *)
+Theorem c19_reader_sees_stable_memory : forall pre sched n t, (1 <= n)%Z ->
+  let s := fold_left rm_act pre (rm_new n) in
+  reading (tpc (rm_lock s) t) = true -> keeps t sched ->
+  rm_val (fold_left rm_act sched s) = rm_val s.
+Proof. exact reader_stable_reach. Qed.
+Print Assumptions c19_reader_sees_stable_memory.
+
+(* ... and while a thread holds it for writing, every write to the cell is its own *)
+Theorem c19_writer_is_alone : forall pre sched n t, (1 <= n)%Z ->
+  let s := fold_left rm_act pre (rm_new n) in
+  writing (tpc (rm_lock s) t) = true -> keeps t sched ->
+  rm_writes (fold_left rm_act sched s) = (rm_writes s + own_writes t sched)%Z.
+Proof. exact writer_exclusive_reach. Qed.
+Print Assumptions c19_writer_is_alone.
